@@ -103,4 +103,75 @@ theorem feedMsgs_reset (enc : List Blk → Bytes) (d : Http.DeflateCfg) (hr : d.
       rw [this, ho]
       cases wholeOutputs (2 ^ d.decompressWbits) true [] 0 ms <;> rfl
 
+/-! ### the same for the inflater of the repaired code -/
+
+/-- what the token model says comes out of that history when BFINAL=1 does not end it -/
+def tokenOutSafe (wsize : Nat) (ms : List (List Blk)) : Option Bytes :=
+  (inflBlocksAll wsize [] (ms.flatMap unstrip)).map (fun r => r.2.reverse)
+
+/-- `inflate` reads the byte history as the blocks `ms`, going on after BFINAL=1 blocks -/
+def AgreesSafe (inflate : Nat → Bytes → Option Bytes) (wbits : Nat) (enc : List Blk → Bytes) (ms : List (List Blk)) : Prop :=
+  inflate wbits (encHist enc ms) = tokenOutSafe (2 ^ wbits) ms
+
+/-- context takeover, repaired code -/
+theorem feedMsgs_takeover_safe (enc : List Blk → Bytes) (d : Http.DeflateCfg) (hr : d.resetDecompress = false)
+    (msgs : List (List Blk)) (s : Sys) (prev : List (List Blk)) (hd : s.compression = some d)
+    (hh : s.inflHist = encHist enc prev)
+    (hA : ∀ k, k ≤ msgs.length → AgreesSafe s.cfg.inflate d.decompressWbits enc (prev ++ msgs.take k)) :
+    feedMsgs (msgs.map enc) s = wholeOutputsSafe (2 ^ d.decompressWbits) false (prev.flatMap unstrip) s.inflOut msgs := by
+  induction msgs generalizing s prev with
+  | nil => rfl
+  | cons m ms ih =>
+    simp only [List.map_cons, feedMsgs, wholeOutputsSafe, Bool.false_eq_true, if_false]
+    have h1 := hA 1 (by simp)
+    simp only [List.take_succ_cons, List.take_zero, AgreesSafe, encHist_snoc, tokenOutSafe, flatMap_unstrip_snoc] at h1
+    have hI : s.cfg.inflate d.decompressWbits (s.inflHist ++ enc m ++ [0, 0, 0xff, 0xff]) =
+        (inflBlocksAll (2 ^ d.decompressWbits) [] (prev.flatMap unstrip ++ unstrip m)).map (fun r => r.2.reverse) := by
+      rw [hh]; exact h1
+    unfold inflateMessage
+    simp only [hd, Option.map_some, Option.getD_some, hr, Bool.false_eq_true, if_false]
+    rw [hI]
+    cases hb : inflBlocksAll (2 ^ d.decompressWbits) [] (prev.flatMap unstrip ++ unstrip m) with
+    | none => rfl
+    | some r =>
+      obtain ⟨w1, e1⟩ := r
+      simp only [Option.map_some]
+      have := ih { s with inflHist := s.inflHist ++ enc m ++ [0, 0, 0xff, 0xff], inflOut := e1.reverse.length }
+        (prev ++ [m]) hd (by rw [encHist_snoc, hh]; rfl)
+        (fun k hk => by
+          have := hA (k + 1) (by simp; omega)
+          simpa [List.take_succ_cons, List.append_assoc] using this)
+      simp only [hd] at this
+      rw [this, flatMap_unstrip_snoc]
+      simp only [List.length_reverse]
+      cases wholeOutputsSafe (2 ^ d.decompressWbits) false (prev.flatMap unstrip ++ unstrip m) e1.length ms <;> rfl
+
+/-- `server_no_context_takeover`, repaired code -/
+theorem feedMsgs_reset_safe (enc : List Blk → Bytes) (d : Http.DeflateCfg) (hr : d.resetDecompress = true)
+    (msgs : List (List Blk)) (s : Sys) (hd : s.compression = some d)
+    (hh : s.inflHist = []) (ho : s.inflOut = 0)
+    (hA : ∀ m ∈ msgs, AgreesSafe s.cfg.inflate d.decompressWbits enc [m]) :
+    feedMsgs (msgs.map enc) s = wholeOutputsSafe (2 ^ d.decompressWbits) true [] 0 msgs := by
+  induction msgs generalizing s with
+  | nil => rfl
+  | cons m ms ih =>
+    simp only [List.map_cons, feedMsgs, wholeOutputsSafe, if_true]
+    have h1 := hA m (by simp)
+    simp only [AgreesSafe, encHist, tokenOutSafe, List.flatMap_cons, List.flatMap_nil, List.append_nil] at h1
+    have hI : s.cfg.inflate d.decompressWbits (s.inflHist ++ enc m ++ [0, 0, 0xff, 0xff]) =
+        (inflBlocksAll (2 ^ d.decompressWbits) [] ([] ++ unstrip m)).map (fun r => r.2.reverse) := by
+      rw [hh]; simpa [TAIL] using h1
+    unfold inflateMessage
+    simp only [hd, Option.map_some, Option.getD_some, hr, if_true]
+    rw [hI]
+    cases hb : inflBlocksAll (2 ^ d.decompressWbits) [] ([] ++ unstrip m) with
+    | none => rfl
+    | some r =>
+      obtain ⟨w1, e1⟩ := r
+      simp only [Option.map_some]
+      have := ih { s with inflHist := [], inflOut := 0 } hd rfl rfl (fun m' hm' => hA m' (by simp [hm']))
+      simp only [hd] at this
+      rw [this, ho]
+      cases wholeOutputsSafe (2 ^ d.decompressWbits) true [] 0 ms <;> rfl
+
 end Lomond.Core
